@@ -7,7 +7,8 @@ use std::io::{BufRead, Write};
 use std::panic::{catch_unwind, AssertUnwindSafe};
 
 use embedded_graphics_core::draw_target::DrawTarget;
-use embedded_graphics_core::geometry::{OriginDimensions, Size};
+use embedded_graphics_core::geometry::{Dimensions, OriginDimensions, Point, Size};
+use embedded_graphics_core::primitives::Rectangle;
 use embedded_graphics_core::pixelcolor::{Rgb565, Rgb666, Rgb888, RgbColor};
 use embedded_graphics_core::prelude::{Drawable, IntoStorage, Pixel};
 use mipidsi::dcs::*;
@@ -173,12 +174,15 @@ fn colours_row16(c0: u32, n: u32, repeat: bool) -> Value {
 struct Canvas<C> {
     w: u32,
     h: u32,
+    /// top-left corner of the bounding box: a DrawTarget only needs `Dimensions`, its box need not start at (0, 0)
+    ox: i32,
+    oy: i32,
     px: Vec<u32>, // 0xFFFFFFFF = untouched
     _c: core::marker::PhantomData<C>,
 }
-impl<C: RgbColor + IntoStorage<Storage = S>, S: Into<u32>> OriginDimensions for Canvas<C> {
-    fn size(&self) -> Size {
-        Size::new(self.w, self.h)
+impl<C: RgbColor + IntoStorage<Storage = S>, S: Into<u32>> Dimensions for Canvas<C> {
+    fn bounding_box(&self) -> Rectangle {
+        Rectangle::new(Point::new(self.ox, self.oy), Size::new(self.w, self.h))
     }
 }
 impl<C: RgbColor + IntoStorage<Storage = S>, S: Into<u32>> DrawTarget for Canvas<C> {
@@ -186,6 +190,7 @@ impl<C: RgbColor + IntoStorage<Storage = S>, S: Into<u32>> DrawTarget for Canvas
     type Error = core::convert::Infallible;
     fn draw_iter<I: IntoIterator<Item = Pixel<C>>>(&mut self, pixels: I) -> Result<(), Self::Error> {
         for Pixel(p, c) in pixels {
+            let p = Point::new(p.x.wrapping_sub(self.ox), p.y.wrapping_sub(self.oy));
             if p.x >= 0 && p.y >= 0 && (p.x as u32) < self.w && (p.y as u32) < self.h {
                 let i = p.y as usize * self.w as usize + p.x as usize;
                 self.px[i] = c.into_storage().into();
@@ -230,8 +235,8 @@ fn classify<C: RgbColor + IntoStorage<Storage = S>, S: Into<u32>>(v: u32) -> u32
     }
 }
 
-fn testimage_row<C: RgbColor + IntoStorage<Storage = S>, S: Into<u32>>(w: u32, h: u32) -> Value {
-    let mut cv = Canvas::<C> { w, h, px: vec![0xFFFF_FFFF; (w * h) as usize], _c: core::marker::PhantomData };
+fn testimage_row<C: RgbColor + IntoStorage<Storage = S>, S: Into<u32>>(w: u32, h: u32, ox: i32, oy: i32) -> Value {
+    let mut cv = Canvas::<C> { w, h, ox, oy, px: vec![0xFFFF_FFFF; (w * h) as usize], _c: core::marker::PhantomData };
     let r = catch_unwind(AssertUnwindSafe(|| TestImage::<C>::new().draw(&mut cv)));
     let res = if r.is_ok() { "ok" } else { "panic" };
     let classes: Vec<u32> = cv.px.iter().map(|v| classify::<C, S>(*v)).collect();
@@ -357,10 +362,13 @@ pub fn eval(f: &str, a: &Value) -> Value {
         // ---- C19: in = [colour type, w, h]
         "testimage" => {
             let (w, h) = (a[1].as_u64().unwrap() as u32, a[2].as_u64().unwrap() as u32);
+            // optional: top-left corner of the target's bounding box
+            let ox = a.get(3).and_then(|v| v.as_i64()).unwrap_or(0) as i32;
+            let oy = a.get(4).and_then(|v| v.as_i64()).unwrap_or(0) as i32;
             match a[0].as_str().unwrap() {
-                "565" => testimage_row::<Rgb565, u16>(w, h),
-                "666" => testimage_row::<Rgb666, u32>(w, h),
-                _ => testimage_row::<Rgb888, u32>(w, h),
+                "565" => testimage_row::<Rgb565, u16>(w, h, ox, oy),
+                "666" => testimage_row::<Rgb666, u32>(w, h, ox, oy),
+                _ => testimage_row::<Rgb888, u32>(w, h, ox, oy),
             }
         }
         _ => panic!("HARNESS: unknown table function {f}"),
